@@ -4,13 +4,13 @@ package model
 
 import "sort"
 
-// G is a small simple graph (n <= 11) as adjacency bit masks.
+// G is a small simple graph (n <= 32; canonical codes only for n <= 11) as adjacency bit masks.
 type G struct {
 	N   int
-	Adj []uint16
+	Adj []uint32
 }
 
-func NewG(n int) *G { return &G{N: n, Adj: make([]uint16, n)} }
+func NewG(n int) *G { return &G{N: n, Adj: make([]uint32, n)} }
 
 func (g *G) Add(i, j int) {
 	if i == j {
@@ -20,7 +20,7 @@ func (g *G) Add(i, j int) {
 	g.Adj[j] |= 1 << uint(i)
 }
 func (g *G) Has(i, j int) bool { return g.Adj[i]>>uint(j)&1 == 1 }
-func (g *G) Copy() *G          { return &G{N: g.N, Adj: append([]uint16(nil), g.Adj...)} }
+func (g *G) Copy() *G          { return &G{N: g.N, Adj: append([]uint32(nil), g.Adj...)} }
 func (g *G) M() int {
 	m := 0
 	for _, a := range g.Adj {
@@ -29,7 +29,7 @@ func (g *G) M() int {
 	return m / 2
 }
 
-func popcount(x uint16) int {
+func popcount(x uint32) int {
 	c := 0
 	for x != 0 {
 		x &= x - 1
@@ -67,7 +67,7 @@ type canon struct {
 	best     uint64
 	haveBest bool
 	perm     []int
-	used     uint16
+	used     uint32
 	bestPerm []int
 }
 
@@ -177,6 +177,7 @@ func AutomorphismsLimit(g *G, class []int, limit int) [][]int {
 	n := g.N
 	var out [][]int
 	tooMany := false
+	nodes := 0
 	p := make([]int, n)
 	used := make([]bool, n)
 	deg := make([]int, n)
@@ -186,6 +187,10 @@ func AutomorphismsLimit(g *G, class []int, limit int) [][]int {
 	var rec func(i int)
 	rec = func(i int) {
 		if tooMany {
+			return
+		}
+		if nodes++; nodes > 3000000 { // the backtracking itself is too expensive for this graph: give up
+			tooMany = true
 			return
 		}
 		if i == n {
@@ -376,7 +381,7 @@ func Classes(n int, keep func(*G) bool) map[Code]bool {
 		var next []*G
 		for _, h := range cur {
 			for mask := 0; mask < 1<<uint(k-1); mask++ {
-				g := &G{N: k, Adj: make([]uint16, k)}
+				g := &G{N: k, Adj: make([]uint32, k)}
 				copy(g.Adj, h.Adj)
 				for u := 0; u < k-1; u++ {
 					if mask>>uint(u)&1 == 1 {
